@@ -470,15 +470,76 @@ def fam_bind(r, idx, sweep=None):
         mid.actions.append(Action("call", r.choice(S_SITES), callee=h.name, expr=None,
                                   stmt="%s();" % h.name))
         spec.funcs += [h, mid]
-        for e in r.sample(spec.entries, min(len(spec.entries), r.choice([1, 2, 2, 3]))):
-            # the leaf directly, through the middle helper, or both in either order
-            for callee in r.choice([[h], [mid], [h, mid], [mid, h], [mid]]):
-                e.actions.append(Action("call", r.choice(S_SITES), callee=callee.name,
-                                        expr=None, stmt="%s();" % callee.name))
+        def call(e, callee):
+            e.actions.append(Action("call", r.choice(S_SITES), callee=callee.name,
+                                    expr=None, stmt="%s();" % callee.name))
+        aux = Func(namer.fresh("fn_aux_"), False)  # touches nothing
+        spec.funcs.append(aux)
+        pat = r.random()
+        by_stage = {}
+        for e in spec.entries:
+            by_stage.setdefault(e.stage, []).append(e)
+        if pat < 0.3 and len(by_stage) >= 2:
+            # diamond across two stages: an earlier entry point calls the leaf and then the
+            # middle helper, a later one of another stage only the middle helper (or mirrored)
+            e1 = spec.entries[0]
+            later = [e for e in spec.entries[1:] if e.stage != e1.stage]
+            e2 = r.choice(later)
+            for c_ in r.choice([[h, mid], [h, mid], [mid, h]]):
+                call(e1, c_)
+            call(e2, mid)
+        elif pat < 0.55:
+            # the reader first, then some helper called more than once in the same body
+            e = r.choice(spec.entries)
+            for c_ in r.choice([[h, mid, mid], [h, aux, aux], [h, h], [mid, h, h], [mid, aux, aux],
+                                [aux, h, aux], [h, aux, mid, aux]]):
+                call(e, c_)
+        else:
+            for e in r.sample(spec.entries, min(len(spec.entries), r.choice([1, 2, 2, 3]))):
+                # the leaf directly, through the middle helper, or both in either order
+                for callee in r.choice([[h], [mid], [h, mid], [mid, h], [mid]]):
+                    call(e, callee)
+    if r.random() < 0.15:
+        saturating_entries(r, spec, namer, stages)
     finish_entries(r, spec, namer)
     if r.random() < 0.07:
         alias_binding(r, spec, namer)
     return spec
+
+
+def saturating_entries(r, spec, namer, stages):
+    """two entry points of a stage nothing else in the shader has: the first one uses every
+    resource but one plus exactly one private variable, the second one only the remaining
+    resource (the number of variables a stage has touched says nothing about WHICH ones)"""
+    free = [s for s in ("compute", "fragment", "vertex") if s not in stages]
+    res = [g for g in spec.globals if g.is_resource()]
+    if not free or len(res) < 2 or not spec.entries:
+        return
+    stage = free[0]
+    bufs = [g for g in res if g.kind == "buffer"]
+    last = r.choice(bufs) if bufs else r.choice(res)
+    pv = Global(namer.fresh("pv_sat"), "private", ty=W.S("f32"))
+    spec.globals.insert(r.randint(0, len(spec.globals)), pv)
+    pre = {"vertex": "vs_", "fragment": "fs_", "compute": "cs_"}[stage]
+    e1, e2 = Entry(namer.fresh(pre), stage), Entry(namer.fresh(pre), stage)
+
+    def touch(e, g):
+        acc = [a for a in possible_accesses(spec, g, r) if last.name not in a[0] or g is last]
+        if g is last:
+            acc = [a for a in acc if a[0] == [last.name]]
+        if not acc:
+            return
+        globs, form, ex, stm = acc[0]
+        e.actions.append(Action("access", "top", glob=globs, form=form, expr=ex,
+                                stmt=stm if ex is None else None))
+    for g in res:
+        if g is not last:
+            touch(e1, g)
+    touch(e1, pv)
+    touch(e2, last)
+    if not e2.actions:
+        return
+    spec.entries += [e1, e2]
 
 
 def alias_binding(r, spec, namer):
@@ -829,7 +890,7 @@ def role_structs(r, spec, namer):
                 {"name": namer.fresh("a"), "ty": W.S("f32"), "location": 0},
                 {"name": namer.fresh("a"), "ty": W.S("f32"), "location": 1, "align": 8},
                 {"name": namer.fresh("a"), "ty": W.V(4, "f32"), "location": 2}]
-        bty = W.A(W.ST(b), 4)
+        bty = r.choice([W.A(W.ST(b), 4), W.A(W.A(W.ST(b), 2), 3), W.A(W.ST(b), 4)])
         if r.random() < 0.5:
             # reachable only through a member of a member
             w1 = namer.fresh("Wrap")
@@ -850,6 +911,30 @@ def role_structs(r, spec, namer):
         v2.params = [{"name": "b", "struct": b}]
         v2.result = {"kind": "position"}
         ents.append(v2)
+    if r.random() < 0.35:
+        # two structs with identical bodies in opposite roles: one only returned by an entry
+        # point, the other only taken as a parameter (a vertex buffer next to a fragment output,
+        # or a fragment input mirroring the vertex output)
+        if r.random() < 0.5:
+            body = [{"name": "color", "ty": W.V(4, "f32"), "location": 0},
+                    {"name": "uv", "ty": W.V(2, "f32"), "location": 1}][:r.randint(1, 2)]
+            a_name, b_name = namer.fresh("VertexColor"), namer.fresh("FragmentOutput")
+            spec.structs[a_name] = W.StructDef(a_name, [dict(m) for m in body])
+            spec.structs[b_name] = W.StructDef(b_name, [dict(m) for m in body])
+            v3 = Entry(namer.fresh("vs_"), "vertex")
+            v3.params = [{"name": "vc", "struct": a_name}]
+            v3.result = {"kind": "position"}
+            f5 = Entry(namer.fresh("fs_"), "fragment")
+            f5.result = {"kind": "struct", "struct": b_name}
+            ents += [v3, f5] if r.random() < 0.5 else [f5, v3]
+        else:
+            m_name = namer.fresh("FragmentInputMirror")
+            spec.structs[m_name] = W.StructDef(m_name, [dict(m) for m in
+                                                        spec.structs[vout].members])
+            f5 = Entry(namer.fresh("fs_"), "fragment")
+            f5.params = [{"name": "fin", "struct": m_name}]
+            f5.result = r.choice([None, {"kind": "location", "location": 0, "ty": "vec4<f32>"}])
+            ents.append(f5)
     if r.random() < 0.3:
         # a struct that only fragment entry points return and that is also a parameter (the
         # same entry, or another one): a stage output, never filled by the host
@@ -988,7 +1073,7 @@ def fam_entry(r, idx):
             vo = io_struct(r, spec, namer, "VOut", with_position=True)
             e.result = {"kind": "struct", "struct": vo}
         ents.append(e)
-    nfrag = 0 if compute_only else r.choice([0, 1, 1, 2])
+    nfrag = 0 if compute_only else r.choice([0, 1, 1, 2, 2, 3])
     for fi in range(nfrag):
         e = Entry(namer.fresh("fs_"), "fragment")
         k = r.random()
@@ -1026,6 +1111,20 @@ def fam_entry(r, idx):
                     ms.insert(r.randint(0, len(ms)), m)
             spec.structs[name] = W.StructDef(name, ms)
             e.result = {"kind": "struct", "struct": name}
+        prev = [x for x in ents if x.stage == "fragment" and x.result and
+                x.result["kind"] in ("location", "builtin")]
+        if prev and r.random() < 0.6:
+            # same result TYPE as an earlier fragment entry, another binding written on it
+            pr = prev[-1].result
+            if pr["kind"] == "location":
+                e.result = r.choice([
+                    {"kind": "location", "location": pr["location"] + r.choice([1, 2, 4]),
+                     "ty": pr["ty"]},
+                    {"kind": "builtin", "builtin": "frag_depth", "ty": "f32"}
+                    if pr["ty"] == "f32" else
+                    {"kind": "location", "location": (pr["location"] + 3) % 7, "ty": pr["ty"]}])
+            else:
+                e.result = {"kind": "location", "location": r.choice([0, 1, 2]), "ty": "f32"}
         if r.random() < 0.4:
             e.params.append({"name": "pos", "builtin": "position", "ty": "vec4<f32>"})
         ents.append(e)
@@ -1104,6 +1203,13 @@ def fam_const(r, idx):
 
     n = r.randint(2, 9)
     prev = []
+    aliases = {}
+    if r.random() < 0.35:
+        for ty in r.sample(["f32", "i32", "u32", "bool", "f64"], r.randint(1, 3)):
+            an = namer.fresh("Alias")
+            an = an[0].upper() + an[1:]
+            aliases[ty] = an
+            spec.extra_decls.append("alias %s = %s;" % (an, ty))
     for i in range(n):
         name = namer.fresh("K_").upper() if r.random() < 0.7 else namer.fresh("k_")
         k = r.random()
@@ -1184,6 +1290,19 @@ def fam_const(r, idx):
                              "const %s = vec3<bool>();"]) % name
             c = {"name": name, "decl": decl, "ty": "vector", "bits": None, "skipped": True}
         c.setdefault("skipped", False)
+        if not c["skipped"] and c["ty"] in aliases and r.random() < 0.7:
+            # the same constant declared through a type alias (explicit type or constructor)
+            an = aliases[c["ty"]]
+            d = c["decl"]
+            if "= %s();" % c["ty"] in d:
+                d = d.replace("= %s();" % c["ty"], "= %s();" % an)
+                d = d.replace(": %s =" % c["ty"], ": %s =" % r.choice([an, c["ty"]]))
+            elif ": %s =" % c["ty"] in d:
+                d = d.replace(": %s =" % c["ty"], ": %s =" % an)
+            elif c["ty"] in ("f32", "i32", "u32", "bool", "f64") and " = " in d and \
+                    not d.rstrip(";").endswith(("i", "u", "f", "lf")) :
+                d = d.replace(" = ", ": %s = " % an, 1)
+            c["decl"] = d
         spec.consts.append(c)
         if not c["skipped"]:
             prev.append(c)
@@ -1316,7 +1435,15 @@ def directed_struct_specs():
         _storage(s, "m", W.ST("Mats"), 0)
         _compute_entry(s)
     # leaf table: scalars and vectors
-    for kind in ("f32", "i32", "u32", "f64"):
+    # arrays beyond serde's 32-element impls, under every derive switch set
+    s = new("big-arrays")
+    s.matrix = True
+    st(s, "BigInner", [("c", W.A(W.S("u32"), 64), None)])
+    st(s, "BigArr", [("a", W.A(W.S("f32"), 33), None), ("b", W.A(W.V(4, "f32"), 40), None),
+                     ("inner", W.ST("BigInner"), None), ("n", W.A(W.A(W.S("f32"), 36), 2), None)])
+    _storage(s, "big", W.ST("BigArr"), 0)
+    _compute_entry(s)
+    for kind in ("f32", "i32", "u32", "f64", "i64", "u64"):
         s = new("vectors-" + kind)
         st(s, "Vecs", [("s", W.S(kind), None)] + [("v%d" % n, W.V(n, kind), None)
                                                   for n in (2, 3, 4)] +
